@@ -14,7 +14,10 @@ PROPS = {
                       'cfgparser.ZConfigParser.error', 'cfgparser.ZConfigParser.nextline',
                       'cfgparser.ZConfigParser.replace', 'cfgparser.ZConfigParser.handle_key_value',
                       'cfgparser.ZConfigParser.handle_directive', 'cfgparser.ZConfigParser.handle_define',
-                      'cfgparser.ZConfigParser.handle_import', 'cfgparser.ZConfigParser.handle_include'],
+                      'cfgparser.ZConfigParser.handle_import', 'cfgparser.ZConfigParser.handle_include',
+                      'cfgparser.ZConfigParser.start_section', 'cfgparser.ZConfigParser.end_section',
+                      'cfgparser.ZConfigParser.parse'],
+        'rx': ['rx:cfgparser._keyvalue_rx', 'rx:cfgparser._section_start_rx'],
         'standin': True,
     },
     'C09': {
